@@ -13,6 +13,7 @@ FIXED_ENVIRON = {
     'PATH': '/usr/local/bin:/usr/bin:/bin',
     'HOME': '/nonexistent-sim-home',
     'LANG': 'C.UTF-8',
+    'PWD': '/the-directory-the-shell-says-exactly-was-started-in',  # (shells export it; nothing keeps it up to date)
     'SIMBASE_A': 'base-a',
     'SIMBASE_B': 'b b',
 }
